@@ -11,48 +11,91 @@ from .rules_layout import UNPACK_NAMES, _format_parts
 from .rules_flow import _names, dep_closure
 
 
+def _stream_aliases(fi, field="self._file"):
+    out = {field}
+    for n in walk_body(fi.node):
+        if isinstance(n, ast.Assign) and dotted(n.value) in out:
+            for t in n.targets:
+                if isinstance(t, ast.Name):
+                    out.add(t.id)
+    return out
+
+
 @rule("MP2", "every segment data read is preceded, in the same iteration, by the segment start (tag) check", floor=4)
 def mp2(ctx, R):
+    from .sym import Sym, show, alpha
+    from .region import nodes_reaching
     prog = ctx.prog
     cls = prog.cls("reader.TdmsReader")
     n = 0
     for name, fi in sorted(cls.methods.items()):
         cfg = None
+        aliases = _stream_aliases(fi)
         for c in walk_body(fi.node):
             if isinstance(c, ast.Call) and isinstance(c.func, ast.Attribute) and c.func.attr in ("read_raw_data", "read_raw_data_for_channel") \
-                    and c.args and dotted(c.args[0]) == "self._file":
+                    and c.args and dotted(c.args[0]) in aliases:
                 n += 1
                 seg = dotted(c.func.value)
                 cfg = cfg or ctx.cfg(fi)
                 cn = cfg.where(lambda x: any(y is c for y in node_calls(x)))
-                chk = lambda x, seg=seg: any(call_name(y) == "self._verify_segment_start" and y.args and dotted(y.args[0]) == seg for y in node_calls(x))
+                verify = nodes_reaching(ctx, fi, cfg, {"reader.TdmsReader._verify_segment_start"})
+                chk = lambda x, seg=seg: x in verify and any(seg in [dotted(a) for a in y.args] for y in node_calls(x))
                 ok = True
                 for node in cn:
-                    # per iteration: from the loop header that binds `seg` (or from entry) every path to the read passes the check
                     heads = cfg.where(lambda x: x.kind == "for" and seg in _names(x.ast.target))
                     starts = [m for h in heads for m, k in h.succ if k == "loop"] or [cfg.entry]
                     starts = [m for m in starts if not chk(m)]
                     r = cfg.reach(starts, avoid=chk, follow_exc=False) if starts else set()
                     if node in r and not chk(node):
                         ok = False
-                    # the segment variable is not rebound between check and read
                 R.check(ok, "reader.TdmsReader.%s::%s.%s" % (name, seg, c.func.attr), fi.where(c),
-                        "dominated by self._verify_segment_start(%s) in the same iteration" % seg,
+                        "dominated by the segment start check of %s in the same iteration" % seg,
                         "data of a segment is read without first checking that the data file has a TDSm tag at the segment's position: a "
                         "stale or mismatching index file would be read as data")
     if n < 3:
         raise AnchorMissing("segment data reads in reader.TdmsReader (found %d)" % n)
     vs = prog.func("reader.TdmsReader._verify_segment_start")
-    t = unparse(vs.node)
-    seeks = [c for c in walk_body(vs.node) if isinstance(c, ast.Call) and call_name(c) == "self._file.seek"]
-    R.check(bool(seeks) and "position" in unparse(seeks[0].args[0]) and len(seeks[0].args) == 1, "reader.TdmsReader._verify_segment_start::seek", vs.where(),
-            "absolute seek to the segment's position in the data file", "the check does not seek to the segment's position")
-    cmpn = [x for x in walk_body(vs.node) if isinstance(x, ast.Compare) and isinstance(x.ops[0], ast.NotEq)]
-    tag = prog.try_fold([d for d in walk_body(vs.node) if isinstance(d, ast.Assign) and dotted(d.targets[0]) == "expected_tag"][0].value) \
-        if any(isinstance(d, ast.Assign) and dotted(d.targets[0]) == "expected_tag" for d in walk_body(vs.node)) else None
-    raises = any(isinstance(x, ast.Raise) for x in walk_body(vs.node))
-    R.check(tag == b"TDSm" and bool(cmpn) and raises, "reader.TdmsReader._verify_segment_start::tag", vs.where(),
-            "raises unless the 4 bytes are b'TDSm'", "the data-file tag check changed (expected tag %r)" % (tag,))
+    sy = Sym(prog, vs, vs.cls)
+    seg = ("param", vs.params[1])
+    al = _stream_aliases(vs)
+    seeks = [c for c in walk_body(vs.node) if isinstance(c, ast.Call) and isinstance(c.func, ast.Attribute) and c.func.attr == "seek" and dotted(c.func.value) in al]
+    ok = False
+    if seeks:
+        env, _g = sy.env_at(seeks[0])
+        tgt = sy.expr(seeks[0].args[0], env) if seeks[0].args else None
+        whence_ok = len(seeks[0].args) == 1 or (len(seeks[0].args) == 2 and (dotted(seeks[0].args[1]) == "os.SEEK_SET" or prog.try_fold(seeks[0].args[1]) == 0))
+        ok = tgt == ("attr", seg, "position") and whence_ok
+    R.check(ok, "reader.TdmsReader._verify_segment_start::seek", vs.where(), "absolute seek of the data stream to segment.position",
+            "the check does not seek the data file to the segment's position")
+    reads = [c for c in walk_body(vs.node) if isinstance(c, ast.Call) and isinstance(c.func, ast.Attribute) and c.func.attr == "read" and dotted(c.func.value) in al]
+    nbytes = None
+    if reads:
+        env, _g = sy.env_at(reads[0])
+        v = sy.expr(reads[0].args[0], env) if reads[0].args else None
+        if v and v[0] == "const":
+            nbytes = v[1]
+        elif v and v[0] == "len" and v[1][0] == "const" and isinstance(v[1][1], bytes):
+            nbytes = len(v[1][1])
+    R.check(len(reads) == 1 and nbytes == 4, "reader.TdmsReader._verify_segment_start::reads the 4-byte tag", vs.where(), "one 4-byte read per segment touched",
+            "the segment start check reads %s bytes in %d read(s)" % (nbytes, len(reads)))
+    # the comparison with b'TDSm' decides between returning and raising
+    cfg = ctx.cfg(vs)
+    good = False
+    for t in cfg.where(lambda x: x.kind == "test"):
+        env, _g = sy.env_at(t.ast)
+        c = sy.expr(t.ast, env)
+        if c and c[0] == "cmp" and c[1] in ("!=", "==") and ("const", b"TDSm") in (c[2], c[3]) and any(
+                isinstance(o, tuple) and o and o[0] == "method" and o[1] == "read" for o in (c[2], c[3])):
+            mismatch = "true" if c[1] == "!=" else "false"
+            succ = [m for m, k in t.succ if k == mismatch]
+            r = cfg.reach(succ, follow_exc=True)
+            raises_only = cfg.exit not in r and all(m is not cfg.exit for m in succ) and (cfg.raise_exit in r or any(m.kind == "raisestmt" for m in succ))
+            match = [m for m, k in t.succ if k == ("false" if mismatch == "true" else "true")]
+            r2 = cfg.reach(match, follow_exc=False)
+            returns = cfg.exit in r2 or any(m is cfg.exit for m in match)
+            good = raises_only and returns
+    R.check(good, "reader.TdmsReader._verify_segment_start::tag", vs.where(), "raises unless the 4 bytes are b'TDSm'",
+            "the data-file tag check changed: no comparison of the bytes read with b'TDSm' that raises on mismatch and returns on match")
 
 
 @rule("TM1", "the ToC mask is parsed little-endian wherever a lead-in is examined", floor=1)
